@@ -109,21 +109,16 @@ Definition efuel (st : pstate) : perr :=
 Definition fuel_of (st : pstate) : nat := S (length (rest st)).
 
 (* advanceChar.  Line bookkeeping happens when the parser steps off a newline
-   onto a following character; nothing is updated when the current character
-   is the last one of the input. *)
+   (also when that newline is the last byte of the input: F14 fix). *)
 Definition advance (st : pstate) : pstate :=
   match rest st with
   | [] => st
   | _ =>
       let '(r, size) := decode_rune (rest st) in
       let rest' := skipn size (rest st) in
-      match rest' with
-      | [] => {| pos := pos st + size; rest := []; line := line st; lstart := lstart st |}
-      | _ =>
-          if N.eqb r 10
-          then {| pos := pos st + size; rest := rest'; line := S (line st); lstart := pos st + size |}
-          else {| pos := pos st + size; rest := rest'; line := line st; lstart := lstart st |}
-      end
+      if N.eqb r 10
+      then {| pos := pos st + size; rest := rest'; line := S (line st); lstart := pos st + size |}
+      else {| pos := pos st + size; rest := rest'; line := line st; lstart := lstart st |}
   end.
 
 (* input[a.pos : b.pos] for a state b reached from a *)
